@@ -81,6 +81,7 @@ type tncSim struct {
 	dSeen       bool // host sent 'd'
 	regSeen     bool
 	connectKind byte
+	connects    int
 }
 
 const (
@@ -110,6 +111,12 @@ func (t *tncSim) handle(f agwFrame) {
 		if sc.HS != "no-g" {
 			d := make([]byte, 12)
 			d[6] = 4 // MaxFrame
+			switch {
+			case sc.MaxFrame < 0:
+				d[6] = 0
+			case sc.MaxFrame > 0:
+				d[6] = byte(sc.MaxFrame)
+			}
 			t.send(agwFrame{Port: f.Port, Kind: 'g', Data: d})
 		}
 	case 'X':
@@ -144,10 +151,11 @@ func (t *tncSim) handle(f agwFrame) {
 		} else if len(sc.digis()) > 0 {
 			t.complain("connect with digipeaters must use a 'v' frame")
 		}
-		switch sc.HS {
-		case "connect-refused":
+		t.connects++
+		switch {
+		case sc.HS == "connect-refused" || sc.Redial == 2 && t.connects == 1:
 			t.send(agwFrame{Port: P, Kind: 'd', From: c13Target, To: c13MyCall, Data: []byte("*** DISCONNECTED RETRYOUT With " + c13Target + "\r")})
-		case "connect-silent":
+		case sc.HS == "connect-silent":
 		default:
 			// the link is up once the acknowledgement is on the wire: the pusher thread must not get
 			// its data / disconnect frames out in front of it (AGWPE never reports data for a
@@ -211,8 +219,10 @@ type c13Scn struct {
 	DropEvery int    `json:"drop_every"`       // the outstanding count drops by one after every n-th poll
 	HS        string `json:"hs,omitempty"`     // handshake variant
 	Digis     int    `json:"digis"`
-	Deep      bool   `json:"deep,omitempty"`  // small scenario explored one deviation deeper from the established connection on, in every tier
-	YBad      int    `json:"y_bad,omitempty"` // the first outstanding-frames poll is answered with a data field of 0 (1), 3 (2), 8 (3), 5 (4) bytes instead of 4
+	Deep      bool   `json:"deep,omitempty"`      // small scenario explored one deviation deeper from the established connection on, in every tier
+	Redial    int    `json:"redial,omitempty"`    // 1: an earlier session with the same station was opened and closed first; 2: an earlier dial to it was refused
+	MaxFrame  int    `json:"max_frame,omitempty"` // MAXFRAME in the 'g' reply minus... 0 = the default 4; -1 = MAXFRAME 0; n = MAXFRAME n
+	YBad      int    `json:"y_bad,omitempty"`     // the first outstanding-frames poll is answered with a data field of 0 (1), 3 (2), 8 (3), 5 (4) bytes instead of 4
 	Mal       int    `json:"mal"`
 	MalWhen   int    `json:"mal_when,omitempty"` // malformed input arrives 0: once the registration was seen; 1: after OpenPortTCP returned, digested before the application dials; 2: on the established connection, while the application reads
 	Choices   []int  `json:"choices,omitempty"`
@@ -221,8 +231,8 @@ type c13Scn struct {
 func (s c13Scn) digis() []string { return []string{"LD5SK", "W1AW-1"}[:s.Digis] }
 
 func (s c13Scn) describe() string {
-	return fmt.Sprintf("%s port=%d frames=%v foreign=%d readbuf=%d late=%d onewrite=%v burst=%v seg=%s chunks=%v drop=%d hs=%s digis=%d mal=%d/%d ybad=%d",
-		s.Kind, s.Port, s.Frames, s.Foreign, s.ReadBuf, s.Late, s.OneWrite, s.Burst, c13SegName(s.Seg), s.Chunks, s.DropEvery, s.HS, s.Digis, s.Mal, s.MalWhen, s.YBad)
+	return fmt.Sprintf("%s port=%d frames=%v foreign=%d readbuf=%d late=%d onewrite=%v burst=%v seg=%s chunks=%v drop=%d hs=%s digis=%d mal=%d/%d ybad=%d redial=%d maxframe=%d",
+		s.Kind, s.Port, s.Frames, s.Foreign, s.ReadBuf, s.Late, s.OneWrite, s.Burst, c13SegName(s.Seg), s.Chunks, s.DropEvery, s.HS, s.Digis, s.Mal, s.MalWhen, s.YBad, s.Redial, s.MaxFrame)
 }
 
 func c13SegName(i int) string {
@@ -336,7 +346,7 @@ func c13Harness(sc c13Scn, o *c13Obs) func() {
 		appReading, allSent := false, false
 		vs.GoNamed("tnc-pusher", false, func() {
 			vs.WaitUntil("link up", func() bool {
-				return sim.connected || sc.Kind == "malformed" && (sim.regSeen || sc.MalWhen == 3) || sc.HS == "inbound-connect" && sim.regSeen
+				return sim.connected && (sc.Redial != 1 || sim.connects >= 2) || sc.Kind == "malformed" && (sim.regSeen || sc.MalWhen == 3) || sc.HS == "inbound-connect" && sim.regSeen
 			})
 			if sc.HS == "inbound-connect" || sc.HS == "inbound-nobody" {
 				if sc.HS == "inbound-connect" {
@@ -467,6 +477,26 @@ func c13Harness(sc c13Scn, o *c13Obs) func() {
 				}
 				o.stage = "dial"
 				ctx := vcontext.Background()
+				switch sc.Redial {
+				case 1: // an earlier session with the same station: opened, closed
+					if c0, err := tp.DialContext(ctx, c13Target, sc.digis()...); err == nil {
+						c0.Close()
+						vs.WaitQuiescent()
+						sim.connected = false
+					} else {
+						o.dialErr = fmt.Errorf("the earlier session: %w", err)
+						tp.Close()
+						return
+					}
+				case 2: // an earlier dial that the station refused
+					if c0, err := tp.DialContext(ctx, c13Target, sc.digis()...); err == nil {
+						c0.Close()
+						o.dialErr = fmt.Errorf("the refused dial succeeded")
+						tp.Close()
+						return
+					}
+					vs.WaitQuiescent()
+				}
 				if sc.HS == "connect-silent" {
 					c, cancel := vcontext.WithTimeout(ctx, 20*time.Second)
 					defer cancel()
@@ -750,6 +780,14 @@ func c13Scenarios(thorough bool) []c13Scn {
 		for d := 1; d <= 2; d++ {
 			out = append(out, c13Scn{Kind: "handshake", Port: port, HS: "plain", Digis: d, Frames: []int{7}, DropEvery: 1})
 		}
+	}
+	// a second session with the same station on one port (what the first one leaves behind must not get
+	// in the way), and the MAXFRAME values of the 'g' reply
+	for _, rd := range []int{1, 2} {
+		out = append(out, c13Scn{Kind: "outbound", Chunks: []int{300, 1}, DropEvery: 1, Redial: rd}, c13Scn{Kind: "inbound", Frames: []int{5, 6}, DropEvery: 1, Redial: rd})
+	}
+	for _, mf := range []int{-1, 1, 2, 7} {
+		out = append(out, c13Scn{Kind: "outbound", Chunks: []int{300, 300, 1}, DropEvery: 1, MaxFrame: mf}, c13Scn{Kind: "outbound", Chunks: []int{1}, DropEvery: 2, MaxFrame: mf})
 	}
 	for yb := 1; yb <= 4; yb++ { // malformed answers to the host's own polls (Write pacing, Flush, Close)
 		out = append(out, c13Scn{Kind: "outbound", Chunks: []int{1}, DropEvery: 1, YBad: yb}, c13Scn{Kind: "outbound", Chunks: []int{300, 300}, DropEvery: 2, YBad: yb})
